@@ -283,8 +283,8 @@ static void fp_dispatch(const mjModel* m, mjData* d, mjTaskFunc func, void* arg,
     print_ints("consts", k, 4);
   } else if (site == 2) {
     c02TacInfo ti; c02_tac_info(m, arg, ntask, &ti);
-    int k[2] = {ti.ntaxel, ti.batch};
-    print_ints("consts", k, 2);
+    int k[4] = {ti.ntaxel, ti.batch, ti.ntask, ti.last_end};
+    print_ints("consts", k, 4);
   }
 
   Snap S0; take(S0, d);
@@ -453,27 +453,32 @@ struct Case {
 };
 
 // feature bit 30: tactile units.  Each unit is a hinged body with a sphere geom carrying a tactile
-// sensor over a 1200-vertex pad mesh (a latitude band of the sphere, given as vertex/face arrays; it is
+// sensor over a pad mesh of 1201 / 1301 / 1026 vertices (a latitude band of the sphere plus the pole as last vertex; it is
 // not used by any geom, so no convex hull is needed) and a free sphere pressed into it.  With >= 1000
 // taxels mj_computeSensor takes the mju_dispatch path (tactileTask).
 #define C02_TACTILE (1u << 30)
 static void add_tactile(mjSpec* s, uint64_t seed) {
   mjg_rng R = {seed * 31 + 7};
   mjsBody* world = mjs_findBody(s, "world");
-  int nlat = 24, nlon = 48 + 2 * mjg_int(&R, 4);
+  // taxel counts 1201 / 1301 (primes) / 1026: no total thread count 2..9 divides the first two, and the LAST vertex is
+  // the pole right under the pressing sphere, so a batching that drops trailing taxels changes the sensor output
+  static const int lons[3] = {48, 52, 41};
+  int nlat = 24, nlon = lons[mjg_int(&R, 3)];
   double r = 0.1;
-  int nv = (nlat + 1) * nlon;
+  int nv = (nlat + 1) * nlon + 1;
   std::vector<float> v(3 * nv);
   for (int i = 0; i <= nlat; i++) for (int j = 0; j < nlon; j++) {
     double th = (-80.0 + 160.0 * i / nlat) * M_PI / 180, ph = 2 * M_PI * j / nlon;
     int k = i * nlon + j;
     v[3 * k] = (float)(r * cos(th) * cos(ph)); v[3 * k + 1] = (float)(r * cos(th) * sin(ph)); v[3 * k + 2] = (float)(r * sin(th));
   }
+  v[3 * (nv - 1)] = 0; v[3 * (nv - 1) + 1] = 0; v[3 * (nv - 1) + 2] = (float)r;
   std::vector<int> f;
   for (int i = 0; i < nlat; i++) for (int j = 0; j < nlon; j++) {
     int a = i * nlon + j, b = i * nlon + (j + 1) % nlon, c = (i + 1) * nlon + j, d = (i + 1) * nlon + (j + 1) % nlon;
     f.push_back(a); f.push_back(b); f.push_back(d); f.push_back(a); f.push_back(d); f.push_back(c);
   }
+  for (int j = 0; j < nlon; j++) { f.push_back(nv - 1); f.push_back(nlat * nlon + j); f.push_back(nlat * nlon + (j + 1) % nlon); }
   mjsMesh* me = mjs_addMesh(s, NULL);
   mjs_setName(me->element, "tpad");
   mjs_setFloat(me->uservert, v.data(), (int)v.size());
